@@ -237,11 +237,72 @@ def late_opposite_pass(ctx):
                 return
 
 
+def proxy_partner_pass(ctx):
+    """one end of a pair holds its partner through a *resolved proxy* (what a cross-resource reference is once it has been
+    followed); the other end is then written with the instance itself — the partner it already has, another one, None,
+    and again: after every call both ends agree (a proxy standing for its target)"""
+    from pyecore import ecore as E
+    n = 60 if ctx.quick() else 1500
+    for k in range(n):
+        rng = common.sub_rng(ctx.seed, 'C01', 'proxy-partner', k)
+        ma, mb = k % 2 == 1, (k // 2) % 2 == 1
+        A, B = E.EClass('A'), E.EClass('B')
+        fb = E.EReference('b', B, upper=-1 if ma else 1)
+        fa = E.EReference('a', A, upper=-1 if mb else 1, eOpposite=fb)
+        A.eStructuralFeatures.append(fb); B.eStructuralFeatures.append(fa)
+        xs, ys = [A(), A()], [B(), B()]
+
+        def vals(o, f):
+            v = o.eGet(f)
+            return [unproxy(t) for t in (list(v) if f.many else ([v] if v is not None else []))]
+
+        def asym():
+            for x in xs:
+                for y in vals(x, fb):
+                    if not any(t is x for t in vals(y, fa)):
+                        return 'an A holds a B that does not hold it back'
+            for y in ys:
+                for x in vals(y, fa):
+                    if not any(t is y for t in vals(x, fb)):
+                        return 'a B holds an A that does not hold it back'
+            return None
+        calls = []
+        for step in range(rng.randint(2, 6)):
+            side = rng.random() < .5
+            o, f, others = (rng.choice(ys), fa, xs) if side else (rng.choice(xs), fb, ys)
+            t = rng.choice(others)
+            form = rng.choice(['proxy', 'proxy', 'instance', 'none'])
+            val = E.EProxy(wrapped=t) if form == 'proxy' else (t if form == 'instance' else None)
+            what = f'{"B.a" if side else "A.b"} (many={f.many}) <- {form}'
+            try:
+                if f.many:
+                    if val is None:
+                        if len(o.eGet(f)):
+                            o.eGet(f).pop()
+                    elif not any(unproxy(v) is t for v in o.eGet(f)):
+                        o.eGet(f).append(val)
+                    else:
+                        continue
+                else:
+                    o.eSet(f, val)
+            except Exception as e:
+                what += f' raised {type(e).__name__}'
+            calls.append(what)
+            ctx.evaluations += 1
+            bad = asym()
+            if bad:
+                ctx.violate({'clause': 'sym-proxy-partner', 'many': bool(f.many), 'opposite_many': bool(f.eOpposite.many)},
+                            f'after {calls}: {bad}', {'proxy_partner': k, 'calls': calls})
+                return
+        ctx.nontriv(('proxy-partner', k))
+
+
 def run(ctx):
     storecheck.run(ctx, CHECKS)
     late_opposite_pass(ctx)
     load_pass(ctx)
     self_opposite_pass(ctx)
+    proxy_partner_pass(ctx)
     crossworld.symmetry_pass(ctx)
     crossworld.notification_pass(ctx, tag='C01u', judge='symmetry')
     ctx.rule += ('; plus saved XMI / JSON documents with one end of a bidirectional reference rewritten (another valid target, a '
